@@ -22,6 +22,9 @@ def apply(pat, name):
     if "{0}" in pat:
         i = pat.index("{0}")
         return pat[:i] + name + pat[i + 3:]
+    if "{}" in pat:         # the spelling book/src/abi.md uses (`mylibrary_{}`)
+        i = pat.index("{}")
+        return pat[:i] + name + pat[i + 2:]
     return pat
 
 
